@@ -146,10 +146,8 @@ def audit(modules, workdir):
         r = sh(['lake', 'env', 'lean', path], cwd=LEAN, timeout=1800)
     out = r.stdout.decode(errors='replace')
     res = {}
-    for m in re.finditer(r"'([^']+)' depends on axioms: \[([^\]]*)\]", out):
-        res[m.group(1)] = set(a.strip() for a in m.group(2).replace('\n', ' ').split(',') if a.strip())
-    for m in re.finditer(r"'([^']+)' does not depend on any axioms", out):
-        res[m.group(1)] = set()
+    for m in re.finditer(r"^'(.+?)' (?:depends on axioms: \[([^\]]*)\]|(does not depend on any axioms))", out, re.M | re.S):
+        res[m.group(1)] = set() if m.group(3) else set(a.strip() for a in m.group(2).replace('\n', ' ').split(',') if a.strip())
     bad = []
     for _, t in thms:
         if t not in res: bad.append((t, 'no #print axioms output'))
@@ -226,14 +224,18 @@ def main():
             body = open(inp).read(); open(inp, 'w').write(open(corpus).read() + body)
         ts = time.time()
         lines, exp, crashes = run_impl(bins[build], inp, os.path.join(workdir, f'{name}-{build}.exp'), st.get('case_timeout', 10.0))
-        out, rc = run_model(inp, os.path.join(workdir, f'{name}-{build}.out'))
+        if st.get('model', True):
+            out, rc = run_model(inp, os.path.join(workdir, f'{name}-{build}.out'))
+        else:
+            out, rc = None, 0
         view = predicates.VIEWS[st.get('view', 'full')]
         oracle = st.get('oracle', 'spec')
         dis_model, dis_spec, skipped, nontrivial = [], [], 0, set()
+        info = {}
         dist = {}
         for k, line in enumerate(lines):
             e = exp[k] if k < len(exp) else 'missing'
-            o = out[k] if k < len(out) else 'missing'
+            o = (out[k] if k < len(out) else 'missing') if out is not None else e
             parts = [x.strip() for x in o.split(' | ')]
             m = parts[0]; s = parts[1] if len(parts) > 1 else None
             cls = predicates.classify(name, line, e)
@@ -248,6 +250,7 @@ def main():
             with open(inp) as fi:
                 ro = subprocess.run([bins[build], 'oracle'], stdin=fi, stdout=subprocess.PIPE, env=ENV, timeout=3600).stdout.decode(errors='replace').split('\n')
             for k, line in enumerate(lines):
+                if k < len(ro) and ro[k].startswith('info '): info[k] = ro[k][5:]; continue
                 if k < len(ro) and ro[k] != 'n/a':
                     falsifier_cases += 1
                     e = exp[k] if k < len(exp) else 'missing'
@@ -266,7 +269,7 @@ def main():
                                              wall_s=round(time.time() - ts, 1))
         if lines: samples.append(dict(stream=name, input=lines[min(len(lines) - 1, 7)][:400], impl=(exp[min(len(exp) - 1, 7)] if exp else '')[:200]))
         for (k, line, e, s) in dis_spec:
-            kid = predicates.known_finding(pid, name, line, e, s, known_ids)
+            kid = predicates.known_finding(pid, name, line + ((' #' + info[k]) if k in info else ''), e, s, known_ids)
             if kid: known_hit.setdefault(kid, (line, e, s)); continue
             problems.append(('impl-violation', f'stream {name}: implementation answers `{e[:200]}`, the property prescribes `{str(s)[:200]}`',
                              dict(stream=name, build=build, lines=[line], expected=s, actual=e, view=st.get('view', 'full'), oracle=oracle)))
